@@ -27,21 +27,29 @@ type rCase struct {
 	Flavor  int      `json:"flavor"`
 }
 
-func rValue(flavor, part int, alt bool) starlark.Value {
+func rValue(flavor, part int, alt bool) starlark.Value { return rValueAs(flavor, part, alt, false) }
+
+// rValueAs writes the number in the value as a float when asFloat is set: the same value
+// under ==, written differently (1 and 1.0).
+func rValueAs(flavor, part int, alt, asFloat bool) starlark.Value {
 	n := int64(part*10 + flavor)
 	if alt {
 		n += 1000
 	}
+	var num starlark.Value = starlark.MakeInt64(n)
+	if asFloat {
+		num = starlark.Float(float64(n))
+	}
 	switch (flavor + part) % 4 {
 	case 0:
-		return starlark.MakeInt64(n)
+		return num
 	case 1:
-		return starlark.Tuple{starlark.String("x"), starlark.MakeInt64(n)}
+		return starlark.Tuple{starlark.String("x"), num}
 	case 2:
-		return starlark.NewList([]starlark.Value{starlark.MakeInt64(n), starlark.String("y")})
+		return starlark.NewList([]starlark.Value{num, starlark.String("y")})
 	default:
 		d := starlark.NewDict(1)
-		d.SetKey(starlark.String("k"), starlark.MakeInt64(n))
+		d.SetKey(starlark.String("k"), num)
 		return d
 	}
 }
@@ -91,6 +99,11 @@ func TestVerifReason(t *testing.T) {
 			case "changed":
 				oldEnv.SetKey(k, rValue(c.Flavor, i, false))
 				newEnv.SetKey(k, rValue(c.Flavor, i, true))
+			case "rewritten":
+				// equal values, written differently: not an edit of the structural diff, yet a
+				// difference the function can observe
+				oldEnv.SetKey(k, rValue(c.Flavor, i, false))
+				newEnv.SetKey(k, rValueAs(c.Flavor, i, false, true))
 			case "added":
 				newEnv.SetKey(k, rValue(c.Flavor, i, false))
 			case "removed":
